@@ -262,14 +262,14 @@ def _bind_args(fn, call: ast.Call):
     return out, order
 
 
-def flatten_collaborators(tree: ast.Module) -> int:
+def flatten_collaborators(tree: ast.Module, foreign: set | None = None) -> int:
     count = 0
     progress = True
     while progress:
         progress = False
         classes = {n.name: n for n in tree.body if isinstance(n, ast.ClassDef)}
         for cname, cls in classes.items():
-            if not _is_private(cname) or not class_shape_ok(cls):
+            if not (_is_private(cname) or (foreign is not None and cname not in foreign and not cname.startswith("__"))) or not class_shape_ok(cls):
                 continue
             mem = _Members(cls)
             if not mem.ok:
@@ -318,7 +318,7 @@ def flatten_collaborators(tree: ast.Module) -> int:
             if runtime_refs:
                 continue
             # every other use of <x>.<a> is <x>.<a>.<member>
-            members = mem.fields | set(mem.alias) | set(mem.methods) - {"__init__"}
+            members = mem.fields | set(mem.alias) | set(mem.getter) | set(mem.methods) - {"__init__"}
             uses = [n for n in ast.walk(tree) if isinstance(n, ast.Attribute) and n.attr == attr]
             outer = {id(n.value): n for n in ast.walk(tree) if isinstance(n, ast.Attribute) and isinstance(n.value, ast.Attribute) and n.value.attr == attr}
             okuse = True
@@ -487,6 +487,10 @@ class _Access(ast.NodeTransformer):
         self.generic_visit(node)
         v = node.value
         a_ = self.mem.alias.get(node.attr, node.attr)
+        if isinstance(v, ast.Attribute) and v.attr == self.attr and node.attr in self.mem.getter and isinstance(node.ctx, ast.Load) and isinstance(v.value, ast.Name):
+            # a read-only computed property of the collaborator: its expression, on the owner's flattened fields
+            sub_ = _SelfRewrite("self", v.value.id, self.attr, self.mem, {}, {})
+            return ast.copy_location(sub_.visit(copy.deepcopy(self.mem.getter[node.attr])), node)
         if isinstance(v, ast.Attribute) and v.attr == self.attr and (a_ in self.mem.fields or a_ in self.mem.methods):
             new = f"{self.attr}__{a_}" if a_ in self.mem.methods else f"{self.attr}_{a_}"
             return ast.copy_location(ast.Attribute(value=v.value, attr=new, ctx=node.ctx), node)
@@ -575,7 +579,7 @@ def _hoist_temporaries(tree: ast.Module, cls: ast.ClassDef, cname: str) -> None:
         fn.body = new_body
 
 
-def flatten_local_instances(tree: ast.Module) -> int:
+def flatten_local_instances(tree: ast.Module, foreign: set | None = None) -> int:
     """`var = C(args)` as a statement of a function, C a private class of the module instantiated only there, `var`
     only ever used as `var.<member>` (also from nested functions): the fields become locals of the function and the
     methods nested functions defined in front of the constructor body."""
@@ -585,7 +589,7 @@ def flatten_local_instances(tree: ast.Module) -> int:
         progress = False
         classes = {n.name: n for n in tree.body if isinstance(n, ast.ClassDef)}
         for cname, cls in classes.items():
-            if not _is_private(cname) or not class_shape_ok(cls):
+            if not (_is_private(cname) or (foreign is not None and cname not in foreign and not cname.startswith("__"))) or not class_shape_ok(cls):
                 continue
             mem = _Members(cls)
             if not mem.ok:
